@@ -1043,6 +1043,38 @@ pub fn sweep_cases(r: &mut Rng, tier: Tier) -> Vec<Case08> {
                               key: KeyId::Hmac1, fmt: if k % 2 == 1 { Fmt::Compact } else { Fmt::Json }, want: Want::Reject, own_view: None, affected: vec![], withheld: 0 });
         }
     }
+    // selective-disclosure structure beneath members whose names other layers give a meaning to: processed like any other member
+    // (and a digest repeated there is a repeated digest)
+    for (k, name) in ["cnf", "aud", "sub", "nbf", "iat", "jti", "vct", "status", "nonce", "sd_hash", "_sd_alg_", "x5c", "jwk"].iter().enumerate() {
+        let d1 = b64_json(&json!(["c2FsdC1zcGVjaWFsLTE", "inner", {"v": k}]));
+        let d2 = b64_json(&json!(["c2FsdC1zcGVjaWFsLTI", "element"]));
+        let held = json!({"_sd": [hash(&d1)], "list": ["plain", {"...": hash(&d2)}], "kept": 1});
+        let mut payload = json!({"iss": "https://issuer.example", "exp": far, "_sd_alg": "sha-256", "other": 1});
+        payload[*name] = if k % 3 == 2 { json!([held.clone()]) } else { held.clone() };
+        for (shape, presented) in [("all-presented", vec![d1.clone(), d2.clone()]), ("one-presented", vec![d2.clone()]), ("none-presented", vec![])] {
+            out.push(Case08 { class: format!("sweep.structure_beneath_a_special_name: {} {}", name, shape), devs: vec![], claims: Value::Null, payload: payload.clone(), all: vec![d1.clone(), d2.clone()], presented,
+                              key: KeyId::Hmac1, fmt: if k % 2 == 1 { Fmt::Compact } else { Fmt::Json }, want: Want::Draft, own_view: None, affected: vec![], withheld: 0 });
+        }
+        let mut dup = payload.clone();
+        dup["again"] = json!({"_sd": [hash(&d1)]});
+        out.push(Case08 { class: format!("sweep.structure_beneath_a_special_name: {} digest-repeated-elsewhere", name), devs: vec![], claims: Value::Null, payload: dup, all: vec![d1.clone(), d2.clone()], presented: vec![d1.clone()],
+                          key: KeyId::Hmac1, fmt: if k % 2 == 0 { Fmt::Compact } else { Fmt::Json }, want: Want::Reject, own_view: None, affected: vec![], withheld: 0 });
+    }
+    // list entries that are no digests by their length or alphabet (nothing can match them), repeated: a repeated entry is a
+    // repeated entry whatever it looks like — the specification decides
+    for (k, odd) in ["", "abc", "A", &"a".repeat(42), &"a".repeat(44), &"a".repeat(86), "not base64url!", "\u{e9}\u{e9}", &hash("x")[..42], &format!("{}=", hash("x"))].iter().enumerate() {
+        let odd = odd.to_string();
+        for (shape, payload) in [
+            ("same-list", json!({"iss": "https://issuer.example", "exp": far, "_sd_alg": "sha-256", "_sd": [odd.clone(), odd.clone()]})),
+            ("two-levels", json!({"iss": "https://issuer.example", "exp": far, "_sd_alg": "sha-256", "_sd": [odd.clone()], "a": {"_sd": [odd.clone()]}})),
+            ("list-and-placeholder", json!({"iss": "https://issuer.example", "exp": far, "_sd_alg": "sha-256", "_sd": [odd.clone()], "l": [{"...": odd.clone()}]})),
+            ("two-placeholders", json!({"iss": "https://issuer.example", "exp": far, "_sd_alg": "sha-256", "l": [{"...": odd.clone()}, 1, {"...": odd.clone()}]})),
+            ("once(control)", json!({"iss": "https://issuer.example", "exp": far, "_sd_alg": "sha-256", "_sd": [odd.clone()], "l": [{"...": hash("other")}]})),
+        ] {
+            out.push(Case08 { class: format!("sweep.repeated_entry_that_is_no_digest: {:?} {}", odd.chars().take(12).collect::<String>(), shape), devs: vec![], claims: Value::Null, payload, all: vec![], presented: vec![],
+                              key: KeyId::Hmac1, fmt: if k % 2 == 0 { Fmt::Compact } else { Fmt::Json }, want: Want::Draft, own_view: None, affected: vec![], withheld: 0 });
+        }
+    }
     // a disclosed array element (or member value) that itself LOOKS like a placeholder: the specification decides what the
     // result is; the inner string is the digest of another presented disclosure, of nothing, or no digest at all
     {
